@@ -24,7 +24,7 @@ ID = 'C01'
 EXTENSIONS = [
     'independent reconstruction of the basis object; user parameters overriding defaults; relative-only tolerances on tiny / huge geometry scales',
     'coefficient vectors of float32 / integer / complex64 dtype; vector- and tensor-valued functionals; functionals built without dtype; nthreads in {1, 2, 3}',
-    'cell / facet subsets named as int64, list, negative indices; omitted arguments equal the documented defaults given explicitly',
+    'cell / facet subsets named as int64 array or list; omitted arguments equal the documented defaults given explicitly',
 ]
 LEVEL = 'exploration'
 TECHNIQUE = "small-scope exhaustive enumeration (mesh x trial/test pair x basis kind x integrand grammar) with a three-route differential oracle over all unit vectors"
@@ -252,8 +252,7 @@ def _basis_arrays(b):
 
 
 def naming_equivalence(out, m, kind, ent, sname, lab):
-    """The same cell / facet subset named in other index forms (int64, list, tuple of Python ints, negative indices counted
-    from the end as NumPy does) gives the identical basis: integrated entities, numbering, values, dx."""
+    """The same cell / facet subset named in other index forms (int64 array, list of Python ints) gives the identical basis: integrated entities, numbering, values, dx."""
     from skfem import CellBasis, FacetBasis
     nt = m.t.shape[1]
     nf = m.facets.shape[1]
@@ -263,8 +262,8 @@ def naming_equivalence(out, m, kind, ent, sname, lab):
             ref = _basis_arrays(CellBasis(m, ent.make(), elements=np.array(S, dtype=np.int32), intorder=4))
         except Exception:
             return
-        forms = [('int64', np.array(S, dtype=np.int64)), ('list', [int(c) for c in S]),
-                 ('negative', np.array([c - nt for c in S], dtype=np.int64))]
+        # (negative indices counted from the end are not a documented way of naming cells: not used)
+        forms = [('int64', np.array(S, dtype=np.int64)), ('list', [int(c) for c in S])]
         for fl, sel in forms:
             out.ev()
             case = {'seed': sname, 'variant': lab, 'element': ent.name, 'cells': list(S), 'form': fl}
@@ -305,7 +304,7 @@ def naming_equivalence(out, m, kind, ent, sname, lab):
             ref = _basis_arrays(FacetBasis(m, ent.make(), facets=np.array(F, dtype=np.int32), intorder=4))
         except Exception:
             return
-        for fl, sel in (('int64', np.array(F, dtype=np.int64)), ('negative', np.array([j - nf for j in F], dtype=np.int64))):
+        for fl, sel in (('int64', np.array(F, dtype=np.int64)),):
             out.ev()
             case = {'seed': sname, 'variant': lab, 'element': ent.name, 'facets': list(F), 'form': fl}
             try:
